@@ -24,8 +24,11 @@ EXTENDS Integers, Sequences, TLC, Json
 CONSTANTS MaxFixed, MaxArgs, VariadicNilPtr, EmitCases
 
 PTypes == {"string", "int", "bool", "iface"}
-ArgKinds == {"str", "int", "bool", "nil", "hash"}
+\* "arr" an array literal ([]interface{}), "strs" a []string variable: slices are ONE argument each, also
+\* where their type happens to be the slice type of a variadic parameter
+ArgKinds == {"str", "int", "bool", "nil", "hash", "arr", "strs"}
 ArgType(a) == CASE a = "str" -> "string" [] a = "int" -> "int" [] a = "bool" -> "bool" [] a = "hash" -> "map" [] a = "nil" -> "nil"
+                [] a = "arr" -> "anyslice" [] a = "strs" -> "strslice"
 Results == {"none", "T", "Tnil", "Terr", "err", "nilerr"}     \* (), (T), (T, nil error), (T, failing error), (failing error), (nil error)
 
 \* parameter list of a signature: fixed ... [map] [helper context]   or   fixed ... variadic
